@@ -267,8 +267,93 @@ func c20(r *core.Report) {
 					}
 					return 0
 				})
-				hasZero, hasLt := core.GuardEdges(lit, cutZero) > 0, core.GuardEdges(lit, cutLt) > 0
-				guarded := core.GuardedFromEntry(lit, st, core.CutAny(cutZero, cutLt))
+				// the same guard written as a helper `g(key, candidate, closest) bool` that answers true only when
+				// closest is unset or candidate is strictly nearer to key
+				helperHasZero, helperHasLt := false, false
+				guardHelper := func(cl *ssa.Call) bool {
+					g := core.StaticCallee(cl.Common())
+					if g == nil || !p.InModule(g) || g.Blocks == nil || g.Signature.Results().Len() != 1 {
+						return false
+					}
+					candIdx, closIdx := -1, -1
+					for ai, a := range cl.Call.Args {
+						switch {
+						case isClosestRead(a):
+							closIdx = ai
+						case fromNode(a):
+							candIdx = ai
+						}
+					}
+					if candIdx < 0 || closIdx < 0 || closIdx >= len(g.Params) || candIdx >= len(g.Params) {
+						return false
+					}
+					fromP := func(i int) func(ssa.Value) bool {
+						return func(v ssa.Value) bool {
+							return core.DerivesFrom(v, func(x ssa.Value) bool { return x == ssa.Value(g.Params[i]) })
+						}
+					}
+					isCand, isClos := fromP(candIdx), fromP(closIdx)
+					zeroCall := func(v ssa.Value) bool {
+						c2, ok := v.(*ssa.Call)
+						return ok && core.CalleeName(c2.Common()) == "(go.brendoncarroll.net/p2p.PeerID).IsZero" && len(c2.Call.Args) == 1 && isClos(c2.Call.Args[0])
+					}
+					ltCall := func(v ssa.Value) bool {
+						c2, ok := v.(*ssa.Call)
+						return ok && core.IsCallToFn(c2.Common(), distLt) && len(c2.Call.Args) == 3 && isCand(c2.Call.Args[1]) && isClos(c2.Call.Args[2]) && !isCand(c2.Call.Args[0]) && !isClos(c2.Call.Args[0])
+					}
+					gz := core.CutWhere(func(cond ssa.Value) int {
+						if zeroCall(cond) {
+							return 1
+						}
+						return 0
+					})
+					gl := core.CutWhere(func(cond ssa.Value) int {
+						if ltCall(cond) {
+							return 1
+						}
+						return 0
+					})
+					for _, ret := range core.Returns(g) {
+						for _, v := range core.ReturnValues(ret, 0) {
+							vals := []ssa.Value{v}
+							if ph, isPhi := v.(*ssa.Phi); isPhi {
+								vals = ph.Edges
+							}
+							for _, x := range vals {
+								b, isK := core.ConstBool(x)
+								switch {
+								case isK && !b:
+								case isK && b:
+									if len(vals) > 1 || !core.GuardedFromEntry(g, ret, core.CutAny(gz, gl)) {
+										return false
+									}
+								case zeroCall(x):
+									helperHasZero = true
+								case ltCall(x):
+									helperHasLt = true
+								default:
+									return false
+								}
+							}
+						}
+					}
+					if core.GuardEdges(g, gz) > 0 {
+						helperHasZero = true
+					}
+					if core.GuardEdges(g, gl) > 0 {
+						helperHasLt = true
+					}
+					return true
+				}
+				cutHelper := core.CutWhere(func(cond ssa.Value) int {
+					if cl, ok := cond.(*ssa.Call); ok && guardHelper(cl) {
+						return 1
+					}
+					return 0
+				})
+				usesHelper := core.GuardEdges(lit, cutHelper) > 0
+				hasZero, hasLt := core.GuardEdges(lit, cutZero) > 0 || (usesHelper && helperHasZero), core.GuardEdges(lit, cutLt) > 0 || (usesHelper && helperHasLt)
+				guarded := core.GuardedFromEntry(lit, st, core.CutAny(cutZero, cutLt, cutHelper))
 				why := ""
 				switch {
 				case !guarded:
